@@ -75,6 +75,12 @@ def gen_unit(ctx, ty):
         # the user's own choice of service type, made twice (as a drop-in would): the last one is the effective one
         blocks.append(['[Service]'] + rnd.choice([['Type=notify', 'NotifyAccess=main', 'Type=oneshot'], ['Type=oneshot', 'Type=notify'], ['Type=notify', 'Type=', 'Type=oneshot'],
                                                   ['Type=simple', 'NotifyAccess=exec', 'Type=oneshot'], ['KillMode=none', 'KillMode=mixed']]))
+    if rnd.random() < 0.25:
+        # "any other section": also one that carries the name of ANOTHER unit type's section (or of its X- counterpart), a name that
+        # differs from the own section's in case only, and one that merely starts with it — all of them foreign here, kept as they are
+        other = rnd.choice([t for t in G.TYPES if t != ty])
+        nm = rnd.choice([G.SEC[other], 'X-' + G.SEC[other], G.SEC[ty].lower(), G.SEC[ty].upper(), G.SEC[ty] + 's', G.SEC[ty] + ' ', 'quadlet', 'Quadlet2', 'X-' + G.SEC[ty] + '-old'])
+        blocks.append(['[' + nm + ']', 'Foreign=1', 'Image=elsewhere', 'Foreign='])
     if rnd.random() < 0.3:
         blocks.append(['[X-' + G.SEC[ty] + ']', 'Mine=1', 'Image=other'])
     if rnd.random() < 0.3:
